@@ -211,6 +211,37 @@ def loading(run, exprs, descr):
             run.failing(SITE, f"override:{p.name}", f"{p.name}: metadata "
                         "override not applied to every curve / count changed",
                         payload={"kind": "override", "name": p.name})
+    # the documented switch "load data of any modality"
+    # (nanite.read.DEFAULT_MODALITY = None): still one Indentation per curve
+    import nanite.read as nread
+    from nanite.qmap import QMap as _QMap
+    saved_mod = nread.DEFAULT_MODALITY
+    try:
+        nread.DEFAULT_MODALITY = None
+        for p in [singles[0], maps[0]]:
+            run.case({"modality-none": p.name}, kind="modality")
+            try:
+                with warnings.catch_warnings():
+                    warnings.simplefilter("ignore")
+                    grp = IndentationGroup(p)
+                    grp2 = nanite.load_group(p)
+                bad = [type(i).__name__ for i in list(grp) + list(grp2)
+                       if not isinstance(i, Indentation)]
+                if bad or len(grp) != counts[p.name]:
+                    run.failing(SITE, f"modality-none:{p.name}",
+                                f"{p.name} loaded with DEFAULT_MODALITY=None: "
+                                f"{len(grp)} curves of classes "
+                                f"{sorted(set(bad)) or 'Indentation'} instead "
+                                f"of {counts[p.name]} Indentation objects",
+                                payload={"kind": "rerun"},
+                                theorem="C20_count")
+            except BaseException as e:
+                run.failing(SITE, f"modality-none:{p.name}:raised",
+                            f"{p.name} with DEFAULT_MODALITY=None raised "
+                            f"{type(e).__name__}: {e}",
+                            payload={"kind": "rerun"}, theorem="C20_count")
+    finally:
+        nread.DEFAULT_MODALITY = saved_mod
     csv = DATA / "fmt-afm-workshop-fd_single_2021-10-22_14.16.csv"
     if csv.exists():
         run.case({"file": csv.name}, kind="override")
